@@ -309,7 +309,7 @@ Definition side_judge
           (* no overlap along the side *)
           && (negb (ga && gb) || Qle_bool (pa + wa) (pb_ + eps))
           && (negb (gb && gc) || Qle_bool (pb_ + wb) (pc + eps))
-          && (negb (ga && gc) || Qle_bool (pa + wa) (pc + eps))
+          && (negb (ga && gc) || (gb && negb nonneg) || Qle_bool (pa + wa) (pc + eps))
           (* inside the side, unless a negative margin makes an outer size negative (css-page-3 then lets the
              neighbour grow by that much) *)
           && (negb nonneg ||
